@@ -3,6 +3,15 @@
 import json, sys
 
 CHECKS = {
+ "C16": dict(engine="XS", design="§4 C16", technique="explicit-state BFS over accept/close/track/limit-change histories on the real SessionManager against a counting reference",
+   text="All histories up to depth 7 (quick) / 9 (thorough) over accept, close, per-(cluster, IP) tracking and runtime limit changes for max_connections 1..3: the admission decision, the connection count, every per-(cluster, IP) slot count, the one-slot-per-connection rule, return to zero after all closes and 'accepting resumes at zero load' are compared with a counting reference at every step.",
+   note="Part (a) only so far (SessionManager core). The end-to-end part (every session teardown path returns buffers, slab entries, gauges and slots; accept queue) needs the SIM engine."),
+ "C17": dict(engine="XS", design="§4 C17", technique="explicit-state BFS (to closure) over add/remove/replace histories on the real CertificateResolver; each state probed and compared with a set-based reference",
+   text="All add/remove/replace histories over 5 real certificates with overlapping exact/wildcard names and expirations, explored until the state space closes (326 states): for 8 server names the lookup that ResolvesServerCert::resolve performs must return a loaded certificate covering the name (exact over wildcard, longest-lived among equals), never a removed one, default only if none covers; failed replacement keeps the old certificate; names_for_sni agrees with the certificate served.",
+   note="State identity includes the resolver's private name index (canonicalised from its Debug output). Real TLS handshakes and strict-SNI routing are SIM work."),
+ "C19": dict(engine="ENUM", design="§4 C19", technique="exhaustive enumeration of all input histories of fixed length on the real sans-IO UdpManager with injected instants; every output checked against a per-flow reference",
+   text="Every one of the 20^6 (quick) / 20^7 (thorough) input histories over client datagrams from 3 colliding sources, backend resolutions (incl. stale/duplicate), backend datagrams, clock advances with handle_timeout, cap changes, affinity-mode/budget reconfiguration, drain, abort and close_all is executed on a fresh UdpManager; every emitted Output is checked: payload unmodified, one transmission per datagram, flow bound to one backend, replies only to the flow's client, admission never above the cap or while draining, each flow closed exactly once, flow_count = created - closed, earliest deadline always armed, idle/exhausted flows reclaimed.",
+   note="Manager core only; the UDP shell (sockets, backend selection, PROXY prefix) is not exercised."),
  "C12": dict(engine="XS", design="§4 C12", technique="explicit-state BFS over operation histories on the real BackendMap/BackendList/retry policy with a harness-controlled clock; every selection compared with an eligibility reference",
    text="All histories up to depth 7 (quick) / 9 (thorough) over add/re-add/remove, health and connect failure/success, clock advance past the back-off window, connection open/close, the 6 load-balancing policies and plain/keyed/connecting/sticky selections on 3 backends (2 weighted primaries, 1 backup): every selected backend must be eligible (primaries, else backups, else documented fail-open set), sticky wins iff eligible, HRW/Maglev keys are stable for an unchanged eligible set, connection counts equal the reference.",
    note="Health/retry transitions are injected through the public fields the health checker and mux use; request-level counters and the mux's pairing of inc/dec are covered by SIM checks. Back-off windows are explored as inside/past, not per jitter value."),
@@ -31,10 +40,7 @@ PLANNED = {
  "C13": "SIM engine not built yet; planned, see DESIGN.md §4 C13",
  "C14": "SIM engine not built yet; planned, see DESIGN.md §4 C14",
  "C15": "ENUM/SIM check not built yet; planned, see DESIGN.md §4 C15",
- "C16": "XS/SIM check not built yet; planned, see DESIGN.md §4 C16",
- "C17": "XS check not built yet; planned, see DESIGN.md §4 C17",
  "C18": "ENUM/SIM check not built yet; planned, see DESIGN.md §4 C18",
- "C19": "XS check not built yet; planned, see DESIGN.md §4 C19",
  "C20": "ENUM check not built yet; planned, see DESIGN.md §4 C20",
 }
 
@@ -68,6 +74,8 @@ def main():
         "engines": [
             {"name": "XS", "path": "/verif/harness/src/xs.rs", "serves_properties": sorted(p for p in CHECKS if CHECKS[p]["engine"].startswith("XS")),
              "kind_free_text": "explicit-state breadth-first search; every transition is a call into the real sozu code; states deduplicated on a canonical digest"},
+            {"name": "ENUM", "path": "/verif/harness/src/checks", "serves_properties": sorted(p for p in CHECKS if "ENUM" in CHECKS[p]["engine"]),
+             "kind_free_text": "bounded-exhaustive enumeration of inputs / input histories executed on the real code against a boring reference"},
         ],
         "checks": checks,
         "not_applicable": na,
